@@ -20,7 +20,7 @@ pub fn def() -> CheckDef {
         rule: "seeded histories over <= 4 streams of non-zero pattern writes, set_len shrink, set_len grow, removal of other non-zero streams, create + grow, with lengths on either side of 64*k, 4096 and sector boundaries; every written byte is attributable (position-dependent pattern keyed by a per-write nonce, never 0). Oracle: every byte read (through the growing handle, a fresh handle, the full dump after every step, and after reopen) equals the last write to that stream position or zero. Non-trivial: >= 1 successful set_len that grows a stream; distinct = distinct (seam log, final image) hash.",
         assumptions: &["reference model as C01"],
         cpu_limit_s: 30,
-        fault_kinds: "none (space-reuse histories)",
+        fault_kinds: "every fourth case: F-SR / F-SW / F-EI chunking faults (rate-based); otherwise none (space-reuse histories)",
         count_subruns: false,
         expect_probes: &[],
     }
@@ -47,7 +47,14 @@ pub fn gen(seed: u64, idx: u64, _tier: Tier) -> Case {
         ("read_whole", 4),
         ("reopen", 2),
     ];
-    common::standard_case("C08", "grow-after-reuse", &mut rng, &k, w)
+    let mut c = common::standard_case("C08", "grow-after-reuse", &mut rng, &k, w);
+    if idx % 4 == 2 {
+        // the same oracle on a disk that splits transfers (short writes must not leave a
+        // reused sector half initialised)
+        c.mode = "grow-after-reuse+chunking".into();
+        c.params.insert("chunk_seed".into(), (rng.next_u64() >> 2) as i64 | 1);
+    }
+    c
 }
 
 pub fn run(case: &Case, known: &BTreeSet<String>) -> Outcome {
